@@ -36,7 +36,7 @@ CLAIMED["C10"] = ("(a) every allocation site's size expression (linear form over
     "the sweeper recomputes from the type row and the stored length field; type rows agree with the record layout; "
     "(b) size-determining length fields are written only on an object allocated earlier in the same function; (c) heap segment sizes are "
     "multiples of the allocation granule; (d) the marker traces exactly the reference fields and, for variable-length types, the live slots "
-    "(stack: top) - over-tracing retains garbage. "
+    "(stack: top) - over-tracing retains garbage; (e) every walk over the objects of a heap segment runs while p < h->data + h->size. "
     "Decides the 'exact tiling' precondition (allocator and sweeper agree on every object's extent), not the sweep/coalescing "
     "arithmetic or heap-growth bounds.",
     "table/layout/site agreement (constant-evaluated type table vs ASTRecordLayout vs linear forms of allocation sizes); who-may-write with dominance",
@@ -78,7 +78,7 @@ CLAIMED["C15"] = ("(a) kind-set dataflow over sexp_equalp_bound and hash_one: th
     "are disjoint from the tags whose raw trailing bytes hash_one hashes (otherwise equal? values hash differently); (b) both recursions "
     "pass through a verified depth bound (termination on deep/cyclic data); (c) hash_one folds a machine word into the hash only for "
     "immediates; (d) the C hash-table primitives update the size slot exactly where they link/unlink an entry; (e) sexp_equalp_bound writes "
-    "every recursive result back into its work budget. Necessary conditions of hash/equal? coherence; hash-table "
+    "every recursive result back into its work budget; (f) hash_one and sexp_equalp_bound read the same type-table columns to decide which slots take part. Necessary conditions of hash/equal? coherence; hash-table "
     "histories are not decided.",
     "sibling agreement by kind-set dataflow probes (tags reaching the semantic-compare returns vs. tags reaching the raw-byte hashing statements); call-graph SCC depth-bound verification",
     "3 C15")
